@@ -150,3 +150,25 @@ def try_feval(node, env, default=None):
         return feval(node, env)
     except (FevalError, KeyError, TypeError, ZeroDivisionError, IndexError, AttributeError):
         return default
+
+
+def region_points(node: ast.AST, env: Dict[str, Any] = None, extra=()):
+    """
+    Test points that make the evaluation of a decision tree over ONE integer input exhaustive: if every test in `node` compares the
+    input with a constant, the tree is constant on each interval between consecutive constants, so c-1, c, c+1 for every constant c
+    (plus the given extras) visit every region and every boundary.
+    """
+    env = env or {}
+    consts = set(extra)
+    for n in ast.walk(node):
+        if isinstance(n, ast.Compare):
+            for side in [n.left] + list(n.comparators):
+                v = try_feval(side, env)
+                if isinstance(v, int) and not isinstance(v, bool):
+                    consts.add(v)
+                elif isinstance(v, (tuple, frozenset, set)):
+                    consts |= {x for x in v if isinstance(x, int) and not isinstance(x, bool)}
+    pts = set()
+    for c in consts:
+        pts |= {c - 1, c, c + 1}
+    return sorted(pts)
